@@ -125,6 +125,50 @@ var families = []family{
 		}
 		return m
 	}},
+	{"relay-reply-nesting", "v6", true, func(n int) []byte { // the same nest made of Relay-reply headers (type 13)
+		m := []byte{7, 1, 2, 3}
+		for len(m)+38 <= n {
+			h := make([]byte, 34)
+			h[0] = 13
+			m = append(h, tlv(9, m)...)
+		}
+		return m
+	}},
+	{"relay-mixed-nesting", "v6", true, func(n int) []byte { // forward and reply headers alternating, each level with an interface-id
+		m := []byte{7, 1, 2, 3}
+		for k := 0; len(m)+46 <= n; k++ {
+			h := make([]byte, 34)
+			h[0] = byte(12 + k%2)
+			m = append(h, append(tlv(18, []byte{1, 2, 3, 4}), tlv(9, m)...)...)
+		}
+		return m
+	}},
+	// many small identifiers at the front of a large datagram: what is kept per identifier is the identifier, not the
+	// rest of the datagram behind it
+	{"duid-flood", "v6", false, func(n int) []byte {
+		b := []byte{1, 1, 2, 3}
+		for i := 0; len(b)+14 <= n; i++ {
+			switch i % 4 {
+			case 0:
+				b = append(b, tlv(1+i%2, []byte{0, 3, 0, 1, 2, 0, 0x5e, 0x10, byte(i >> 8), byte(i)})...) // DUID-LL
+			case 1:
+				b = append(b, tlv(1+i%2, []byte{0, 1, 0, 1, 9, 9, 9, 9, 2, byte(i)})...) // DUID-LLT
+			case 2:
+				b = append(b, tlv(1+i%2, []byte{0, 2, 0, 0, 0, 9, 1, 2, 3, byte(i)})...) // DUID-EN
+			default:
+				b = append(b, tlv(1+i%2, []byte{0, 9, 1, 2, 3, 4, 5, 6, 7, byte(i)})...) // opaque
+			}
+		}
+		return b
+	}},
+	{"byte-string-flood", "v6", false, func(n int) []byte { // interface-id, remote-id, status, boot file url, client link-layer address: small values, many of them
+		b := []byte{1, 1, 2, 3}
+		for i := 0; len(b)+12 <= n; i++ {
+			code := []int{18, 37, 13, 59, 79}[i%5]
+			b = append(b, tlv(code, []byte{0, 0, 0, 9, 'a', 'b', byte(i >> 8), byte(i)})...)
+		}
+		return b
+	}},
 	{"ia-nesting", "v6", true, func(n int) []byte {
 		v := []byte{}
 		for len(v)+8 <= n-4 {
